@@ -3,7 +3,8 @@
 // Input line: {"id":n,"prog":{"prof":..,"a":[step..],"b":[step..]}}; steps (word addressed, one cell = 32 bytes):
 // {"op":"MSTORE","c":..,"v":..} {"op":"CALL","kind":..,"to":"B|P1|P2|P3|P4","io":..,"il":..,"oo":..,"ol":..}
 // {"op":"CREATE|CREATE2","init":[step..],"val":0|1} {"op":"RDSIZE","c":..} {"op":"RDCOPY","d":..,"o":..,"l":..}
-// {"op":"CDCOPY","d":..,"l":..} {"op":"LOGD","t":..,"o":..,"l":..} {"op":"RETURN|REVERT","o":..,"l":..} STOP INVALID.
+// {"op":"CDCOPY","d":..,"l":..} {"op":"LOGD","t":..,"o":..,"l":..} {"op":"RETURN|REVERT","o":..,"l":..} STOP INVALID
+// {"op":"SSTORE","k":..,"v":..} {"op":"SLOAD","k":..,"c":..}; CREATE2 may carry "salt" (0 = position of the step).
 // A and B are installed in a fresh real state (no balances), "origin calls A" runs through runtime.PrepareClause.
 // Output line:
 //
@@ -51,6 +52,7 @@ type MStep struct {
 	O    int     `json:"o"`
 	L    int     `json:"l"`
 	T    int     `json:"t"`
+	K    int     `json:"k"`
 	Val  int     `json:"val"`
 	Salt int     `json:"salt"` // CREATE2 salt; 0 = position of the step + 1 (distinct per step)
 	Init []MStep `json:"init"`
@@ -129,6 +131,15 @@ func assembleMem(steps []MStep) []byte {
 				a.op(vm.CREATE)
 			}
 			a.op(vm.POP)
+		case "SSTORE":
+			a.push1(s.V)
+			a.push1(s.K)
+			a.op(vm.SSTORE)
+		case "SLOAD":
+			a.push1(s.K)
+			a.op(vm.SLOAD)
+			a.push1(cell(s.C))
+			a.op(vm.MSTORE)
 		case "RDSIZE":
 			a.op(vm.RETURNDATASIZE)
 			a.push1(cell(s.C))
